@@ -113,12 +113,12 @@ func C19_Writers[T signal.SignalTypes]() {
 	b := vf.Pick("b", a, K)
 	w1, w2, w3 := base.Slice(0, a), base.Slice(a, b), base.Slice(b, K)
 	old := contents(base)
-	in1 := anySlice[T]("in1", w1.Len())
+	in1 := anySlice[T]("in1", C*K) // a fixed-size chunk: the window clips it
 	// per-channel input of the striped writer: ragged (nil, short) or full
 	in2 := make([][]T, C)
 	longest := 0
 	for c := range in2 {
-		l := vf.Pick("in2.len", -1, b-a)
+		l := vf.Pick("in2.len", -1, K) // possibly longer than the window: the window clips it
 		if l >= 0 {
 			in2[c] = anySlice[T]("in2", l)
 		}
@@ -161,10 +161,7 @@ func C19_Writers[T signal.SignalTypes]() {
 	var want T
 	switch {
 	case k < C*a:
-		want = vf.Ite(mode == 0, in1[vf.Ite(k < C*a, k, 0)%imax(len(in1), 1)], x)
-		if len(in1) == 0 {
-			want = old[k]
-		}
+		want = vf.Ite(mode == 0, in1[vf.Ite(k < C*a, k, 0)], x)
 	case k < C*b:
 		p := k - C*a
 		c := vf.Concretize(p % C)
@@ -172,7 +169,7 @@ func C19_Writers[T signal.SignalTypes]() {
 		if mode == 1 {
 			want = x
 		} else if i >= longest {
-			want = old[k] // beyond the frames the striped writer covered
+			want = old[k] // beyond the frames the striped writer covered (it covers min(longest, window) frames)
 		} else if i < len(in2[c]) {
 			want = in2[c][i]
 		} else {
